@@ -4,10 +4,11 @@ package main
 
 import (
 	"fmt"
-	"os"
 	"go/ast"
+	"go/parser"
 	"go/token"
 	"go/types"
+	"os"
 	"sort"
 	"strings"
 
@@ -102,6 +103,19 @@ func (e *Env) evalLoc(x ast.Expr) []locRef {
 				evalFail("cancelled() location expects a context")
 			}
 			return []locRef{{"G|cancelled", ArrayS(IntS, BoolS), c.Val}}
+		case "gint", "gbool", "garr":
+			lit := n.Args[0].(*ast.BasicLit)
+			gname := strings.Trim(lit.Value, `"`)
+			var es *Sort
+			switch funName(n.Fun) {
+			case "gint":
+				es = IntS
+			case "gbool":
+				es = BoolS
+			default:
+				es = ArrayS(IntS, IntS)
+			}
+			return []locRef{{"G|" + gname, ArrayS(IntS, es), e.eval(n.Args[1]).V.(*Term)}}
 		case "ghost":
 			// ghost("name"): a whole ghost array
 			lit := n.Args[0].(*ast.BasicLit)
@@ -491,6 +505,35 @@ func (x *Exec) doCall(fr *Frame, st *State, call *ssa.Call, cc *ssa.CallCommon, 
 			k(st, r)
 			return
 		}
+		// a known dynamic type: call the concrete method (by its contract, or inlined)
+		tag := recv.Tag
+		if !tag.IsInt() {
+			if kv, ok := st.known[tag.Key()]; ok {
+				tag = IntLit(kv)
+			}
+		}
+		if tag.IsInt() {
+			if x.invokeConcrete(fr, st, cc, IfaceV{tag, recv.Val}, args, site, k) {
+				return
+			}
+		} else if cands := x.dispatchTypes(fr, cc); len(cands) > 0 {
+			for _, t := range cands {
+				st2, fr2 := st.clone(), fr.clone()
+				st2.assume(Eq(recv.Tag, tagTerm(t)))
+				if st2.dead {
+					continue
+				}
+				if !x.invokeConcrete(fr2, st2, cc, IfaceV{tagTerm(t), recv.Val}, args, site, k) {
+					x.fail("dispatch: %s has no method %s", t, cc.Method.Name())
+				}
+			}
+			for _, t := range cands {
+				st.assume(Neq(recv.Tag, tagTerm(t)))
+			}
+			if st.dead {
+				return
+			}
+		}
 		c := x.findIfaceContractFor(cc.Method, cc.Value.Type())
 		if c == nil {
 			x.note("uncontracted interface call (results unconstrained, assumed not to panic, heap assumed unchanged)", cc.Method.FullName())
@@ -545,6 +588,67 @@ func fnApply(sig *types.Signature, f *Term, args []Value) []Value {
 		rets[j], _ = fromComps(rt, ts)
 	}
 	return rets
+}
+
+// invokeConcrete calls method cc.Method on the concrete dynamic type with the given (literal) tag.
+func (x *Exec) invokeConcrete(fr *Frame, st *State, cc *ssa.CallCommon, recv IfaceV, args []Value, site ssa.Instruction, k cont) bool {
+	id := int(recv.Tag.Int.Int64())
+	if id < 1 || id > len(tags.types) {
+		return false
+	}
+	t := tags.types[id-1]
+	if _, isPseudo := t.(*pseudoType); isPseudo {
+		return false
+	}
+	sel := x.eng.prog.MethodSets.MethodSet(t).Lookup(cc.Method.Pkg(), cc.Method.Name())
+	if sel == nil {
+		return false
+	}
+	fn := x.eng.prog.MethodValue(sel)
+	if fn == nil {
+		return false
+	}
+	rv := x.unbox(st, recv, t)
+	// promoted methods are reached through synthetic wrappers; call the wrapper's target when it has no body of its own
+	x.callFunc(fr, st, fn, nil, append([]Value{rv}, args...), site, k)
+	return true
+}
+
+// dispatchTypes: the concrete types this function's contract asks to split calls on, for the call's static interface type.
+func (x *Exec) dispatchTypes(fr *Frame, cc *ssa.CallCommon) []types.Type {
+	var c *Contract
+	if fr.inl {
+		c = x.eng.cs.Funcs[x.eng.fnKey[fr.fn]]
+	}
+	if c == nil || c.Dispatch == nil {
+		c = x.c
+	}
+	if c == nil || c.Dispatch == nil {
+		return nil
+	}
+	env := &Env{eng: x.eng, pkg: x.eng.typesPkg(c.Pkg), vars: map[string]tv{}}
+	static := canonType(cc.Value.Type())
+	var out []types.Type
+	for in, ts := range c.Dispatch {
+		ix, err := parser.ParseExpr(in)
+		if err != nil {
+			continue
+		}
+		it := env.resolveType(ix)
+		if it == nil || !types.Identical(canonType(it), static) {
+			continue
+		}
+		for _, tn := range ts {
+			tx, err := parser.ParseExpr(tn)
+			if err != nil {
+				continue
+			}
+			if t := env.resolveType(tx); t != nil {
+				out = append(out, t)
+			}
+		}
+	}
+	return out
 }
 
 func (x *Exec) freshResults(st *State, sig *types.Signature, hint string) []Value {
